@@ -24,7 +24,7 @@ var (
 	c02Raw    = []string{"script", "style", "textarea", "title"}
 
 	c02AttrNames = []string{"class", "id", "title", "href", "data-x"}
-	c02AttrVals  = []string{"a", "a b", "&amp;", "&lt;", "&quot;", "'", " a ", "&amp;lt;", "x&gt;y", "&#39;q", "&nbsp;x&nbsp;", "\u00a0"}
+	c02AttrVals  = []string{"a", "a b", "a  b", "a&#10;b", "a&Tab;b", "a\nb", "&amp;", "&lt;", "&quot;", "'", " a ", "&amp;lt;", "x&gt;y", "&#39;q", "&nbsp;x&nbsp;", "\u00a0"}
 	c02Texts     = []string{"t", "&amp;", "&lt;b&gt;", "a &lt; b &amp; c", "&amp;lt;", "&#39;", "x &amp; y; z", "\"q\"", "&nbsp;", "a&nbsp;b", "&nbsp;x&nbsp;", "\u00a0", "\u2003"}
 )
 
@@ -450,7 +450,7 @@ func c02Enumerate(tier string, emit func(core.Case)) {
 		}
 	}
 	// (v) interpolation
-	neigh := []string{"", "a ", "&amp; ", "&lt;", " b", "&lt;b&gt; ", "x;"}
+	neigh := []string{"", "a ", "&amp; ", "&lt;", " b", "&lt;b&gt; ", "x;", "p  q&#10;"}
 	plainEmit := emit
 	emit = func(cs core.Case) {
 		plainEmit(cs)
